@@ -96,11 +96,17 @@ func VH_C07_ConcurrentFirstWrite() {
 	tr := &vhTransport{partitions: 1, budget: 1, fixed: []int{vhAcked, vhAcked, vhAcked, vhAcked, vhAcked, vhAcked, vhAcked, vhAcked}}
 	w := &Writer{Addr: TCP("vh:9092"), Topic: "t", MaxAttempts: 1, BatchSize: 1, Transport: tr, RequiredAcks: RequireAll, Async: true}
 	ctx := context.Background()
+	// the same scenario serves C10: the Writer's fields under two concurrent submitters, Stats and Close
+	vhGuarded(w, "closed", &w.mutex)
+	vhGuarded(w, "writers", &w.mutex)
+	vhWatch(w)
+	vhGuardCheck(true)
 	done := 0
 	for g := 0; g < 2; g++ {
 		g := g
 		go func() {
 			w.WriteMessages(ctx, Message{Value: []byte{byte(10 * (g + 1))}})
+			w.Stats()
 			w.WriteMessages(ctx, Message{Value: []byte{byte(10*(g+1) + 1)}})
 			done++
 		}()
